@@ -23,9 +23,10 @@ RULE = ("pairs (reference, compared) of unrooted trees on the same 4..11 taxa (r
         "non-ASCII); streams of 120..400 trees with 1..3 rejected trees at random positions run with cpus in {2,8}, records matched "
         "by id; rejection cases rename one tip, "
         "drop a tip or add a tip in one of the trees; some rooted pairs (outside the quantifier) are run for the correspondence "
-        "only; the COMMAND LINE `gotree compare trees -i ref -c trees -t k [--tips|--binary|--rf]` is run on generated Newick files under no CPU "
+        "only; the COMMAND LINE `gotree compare trees -i ref -c trees -t k [--tips|--binary|--rf|--weighted [--tips]]` is run on generated Newick files under no CPU "
         "restriction, pinned to 1 CPU and pinned to 2 CPUs (taskset), with -t in {1,2,NumCPU,NumCPU+5}: every printed row is compared with the "
-        "set algebra of the splits computed in Python (per tree id), a stream with a tree on other taxa must exit non-zero; "
+        "set algebra of the splits computed in Python (per tree id; with --weighted the printed weighted RF and KF are compared with the sums of "
+        "Properties/C08Extra8.v C08_wrf_terms / C08_kf2_terms over the exact dyadic lengths, formatted with %E), a stream with a tree on other taxa must exit non-zero; "
         "all ordered pairs of the 7 unrooted shapes on 4 taxa and of the 66 on 5 taxa are enumerated in the thorough tier (trees up to 24 taxa there); non-trivial = the two trees differ in at "
         "least one non-trivial split (or must be rejected); distinct = distinct case text")
 TRUSTED = ["trees built through NewNode/NewEdge + verif hooks (exact neighbour order); records read from the stats channel",
@@ -34,7 +35,10 @@ TRUSTED = ["trees built through NewNode/NewEdge + verif hooks (exact neighbour o
 ASSUMPTIONS = ["cpus = 1: the sequential semantics is modelled (threading is property C11)",
                "the theorems are about the model over an association list keyed by the bipartition; the judge also runs the model "
                "over the hash index of Model/EdgeIndex.v (C04) on every case and demands that both agree with the Go record",
-               "float64 subtraction of the dyadic lengths is exact (lengths are k/64, k <= 256)"]
+               "float64 subtraction of the dyadic lengths is exact (lengths are k/64, k <= 256)",
+               "Model/C08Extra8.v (rf_of, wrf_of, kf2_of = the arithmetic of cmd/comparetrees.go RunE over exact rationals) is not extracted "
+               "into the judge: the command-line rows are compared with the right-hand sides of its theorems computed in Python; "
+               "math.Sqrt / %E formatting are outside the model"]
 LEVEL_TEXT = "proof"
 LEVEL_NOTE = ""
 
@@ -601,7 +605,37 @@ def _py_splits(t):
     walk(t)
     return res
 
+def _py_wsplits(t, tips):
+    """split (side without the smallest taxon) -> branch length, tip branches included when tips"""
+    allv = sorted(leaves(t))
+    res = {}
+    def walk(n):
+        for sl in n["slots"]:
+            if sl is not None:
+                e, c = sl
+                if kids(c) or tips:
+                    side = frozenset(leaves(c))
+                    if allv[0] in side:
+                        side = frozenset(allv) - side
+                    res[side] = Fraction(e["len"] if e["len"] is not None else 0)
+                walk(c)
+    walk(t)
+    return res
+
+def _expected_weighted(ref, t, tips):
+    """(weighted RF, KF^2) from the terms of the specification (Coq: C08_wrf_terms, C08_kf2_terms), exact"""
+    w1, w2 = _py_wsplits(ref, tips), _py_wsplits(t, tips)
+    terms = [w1[s] - w2[s] for s in w1 if s in w2] + [w1[s] for s in w1 if s not in w2] + [w2[s] for s in w2 if s not in w1]
+    return sum((abs(x) for x in terms), Fraction(0)), sum((x * x for x in terms), Fraction(0))
+
 def _expected_rows(ref, trees, flags):
+    if "--weighted" in flags:
+        import math
+        rows = {}
+        for i, t in enumerate(trees):
+            wrf, kf2 = _expected_weighted(ref, t, "--tips" in flags)
+            rows[i] = "%E\t%E" % (float(wrf), math.sqrt(float(kf2)))
+        return rows
     s1 = _py_splits(ref)
     n = len(leaves(ref))
     rows = {}
@@ -642,7 +676,7 @@ def extra(tier, seed, st):
             bad = list(trees)
             bad[rng.randrange(len(bad))] = rename_tip(rng.choice(trees), rng, "zz")
             datasets.append(("diff%d" % k, ref, bad, True))
-        flagsets = [[], ["--tips"], ["--binary"], ["--rf"], ["--tips", "--binary"]]
+        flagsets = [[], ["--tips"], ["--binary"], ["--rf"], ["--tips", "--binary"], ["--weighted"], ["--weighted", "--tips"]]
         for name, ref, trees, rejected in datasets:
             rf = os.path.join(d, name + ".ref.nw")
             cf = os.path.join(d, name + ".cmp.nw")
